@@ -255,6 +255,9 @@ class ExecutionState:
         # Operations whose parent has completed
         self._parent_done: set[str] = set()
 
+        # CONTEXT operations completed (SUCCEED/FAIL handed over) during this invocation
+        self._completed_contexts: set[str] = set()
+
         # Protects parent_to_children and parent_done
         self._parent_done_lock: Lock = Lock()
         self._replay_status: ReplayStatus = replay_status
@@ -436,6 +439,13 @@ class ExecutionState:
                     self._parent_to_children[operation_update.parent_id].add(
                         operation_update.operation_id
                     )
+                    # An operation first seen under a context that has already completed
+                    # (or under one of its orphaned descendants) is an orphan as well.
+                    if (
+                        operation_update.parent_id in self._completed_contexts
+                        or operation_update.parent_id in self._parent_done
+                    ):
+                        self._parent_done.add(operation_update.operation_id)
 
                 # Handle CONTEXT completion - mark descendants while holding lock
                 if (
@@ -443,6 +453,7 @@ class ExecutionState:
                     and operation_update.action
                     in {OperationAction.SUCCEED, OperationAction.FAIL}
                 ):
+                    self._completed_contexts.add(operation_update.operation_id)
                     self._mark_orphans(operation_update.operation_id)
 
                 # Check if this operation's parent is done
